@@ -18,7 +18,7 @@ chk("C01","exploration",
  "runtime monitoring: online QF-invocation monitor + offline history oracle over gated executions","DESIGN.md 6 C01","gated")
 chk("C02","exploration",
  "Same gated executions as C01 with the outcome oracle: success iff a quorum was reported, Incomplete exactly on exhaustion with errors+replies=targeted (numbers parsed from the error), "
- "context error otherwise; zero/one targeted nodes; ctx end at every position (exhaustive for small n); bounded-progress hang rule with goroutine-dump witness; futures sampled repeatedly.",
+ "context error otherwise; zero/one targeted nodes; ctx end at every position (exhaustive for small n); bounded-progress hang rule with goroutine-dump witness; futures polled (Done, then Get at once) from two extra goroutines and sampled repeatedly; storms of calls needing every node while streams are broken from the sender side (nodes shown to the quorum function + nodes named in the error must cover the configuration).",
  "Liveness is decided only in bounded form (hang rule, W=4/8 s, two dumps). Cases whose stream was reset by gorums itself (observed through hooks) are set aside as disturbed, not judged.",
  "runtime monitoring: outcome oracle over recorded gated histories + bounded-progress hang rule","DESIGN.md 6 C02, 4.4","gated")
 
@@ -42,15 +42,15 @@ chk("C09","exploration",
  "Usability is decided in bounded form. Two wedges found this way on the original tree were repaired (fix: 328fbda).",
  "runtime monitoring: black-box probe oracle after hostile phases, hook-steered schedules, hang rule witness","DESIGN.md 6 C09","usable")
 chk("C05","exploration",
- "Concurrent soaks (8-64 goroutines, one manager, 5-9 nodes, 6-20 overlapping configurations, all 21 call kinds, delayed / late / never replies, cancelled and timed-out contexts, oversized writes, server restarts) with an online oracle inside every quorum function and on every return: own token, node stamp = key, digest of the request meant for that node, one new key per invocation, at most one error line per node.",
+ "Concurrent soaks (8-64 goroutines, one manager, 5-9 nodes, 6-20 overlapping configurations, all 21 call kinds, delayed / late / never replies, cancelled and timed-out contexts, oversized writes, server restarts) with an online oracle inside every quorum function and on every return: own token, node stamp = key, digest of the request meant for that node, one new key per invocation, at most one error line per node; errors are attributed like replies (handler errors name their call and node; a context's own error under a live context belongs to another call).",
  "Unique tokens and per-node payloads make replies identify their requests; reply delivery to an ended call is observed as an orphan quorum-function invocation.",
  "runtime monitoring: online attribution oracle (unique ids) inside quorum functions over concurrent soaks","DESIGN.md 6 C05","soak")
 chk("C07","fault_enumeration",
- "Fault grid over failing subsets x failure kinds (never started, stopped before/during/after, resets before/during/while the request is queued via a hook hold, refused, handler error with every status code) x QC/Async/Corr x dial mode; oracle on outcome, per-node error lines parsed from the error text, quorum-function log and completion (hang rule).",
+ "Fault grid over failing subsets x failure kinds (never started, stopped before/during/after, resets before/during/while the request is queued via a hook hold, refused, handler error with every status code) x QC/Async/Corr x dial mode; storms of calls under sender-side stream breaks (every failing node named once, never together with its reply); oracle on outcome, per-node error lines parsed from the error text, quorum-function log and completion (hang rule).",
  "Port of a stopped server stays reserved (bound, not listening) so that refused really is refused; unavailable-type texts observed are listed in the evidence.",
  "runtime monitoring: fault injection (server stop, TCP proxy reset/refuse, hook-held sender) with error-text and QF-log oracle","DESIGN.md 6 C07","faults")
 chk("C08","exploration",
- "Grid over call kind x node behaviour (never answers, holds connection, stalled proxy, refused, reconnect into a tarpit, slow) x concurrent traffic x instant of the context end placed with hooks (before the call, queued, being written, write blocked by flow control, awaiting replies) x cancel/deadline; "
+ "Grid over call kind x node behaviour (never answers, holds connection, stalled proxy, refused, reconnect into a tarpit, slow) x concurrent traffic x {other nodes fine, other nodes' handlers fail by themselves} x context kind (harness-ended, WithCancelCause/WithTimeoutCause) x instant of the context end placed with hooks (before the call, queued, being written, write blocked by flow control, awaiting replies) x cancel/deadline; "
  "hang rule from the logged context end with goroutine-dump witness; errors.Is(err, ctx.Err()) unless the node legitimately failed the call.",
  "A manual context (Done/Err triggered by the harness) stands for cancel and deadline; latencies are reported, the verdict is the bounded hang rule.",
  "runtime monitoring: hook-placed context ends, bounded-progress hang rule, error-matching oracle","DESIGN.md 6 C08","ctxend")
@@ -60,7 +60,7 @@ chk("C10","fault_enumeration",
  "Server-side 'handled' event = puppet handler entry log; back-off wait is identified by the receiver parked in reconnect's select in the dump.",
  "runtime monitoring: fault sequences with server-side event log, probe oracle, metadata monitor in the connect callback","DESIGN.md 6 C10","restart")
 chk("C12","fault_enumeration",
- "Grid over send buffer x node states (connected, refused, server killed) x in-flight call kinds x strike point of Close placed with hooks x {single, concurrent, repeated Close}; servers live in a child process so every grpc/gorums goroutine of the client process belongs to the manager; "
+ "Grid over send buffer x node states (connected, refused, server killed) x in-flight call kinds x strike point of Close placed with hooks (incl. while the receiver has a reply in hand) x {single, concurrent, repeated Close}; Close racing with configuration creation and with the dial of a new node; servers live in a child process so every grpc/gorums goroutine of the client process belongs to the manager; "
  "oracle: in-flight calls return, calls after Close return (hang rule), no client goroutine survives (dump diff against a baseline), server child reports no live stream, no panic.",
  "Goroutines are attributed by frames/creation site in runtime.Stack output. Tarpit state only in thorough.",
  "runtime monitoring: hook-placed Close, goroutine-dump residue check, hang rule, server-side stream liveness query","DESIGN.md 6 C12","closing")
@@ -74,7 +74,7 @@ chk("C14","exploration",
  "After a failed creation the pool contents are re-read (not specified by the property).",
  "runtime monitoring: reference set model compared after every step of random API programs","DESIGN.md 6 C14","configs")
 chk("C18","exploration",
- "Soaks of all call kinds ending in every way (incl. oversized writes with a never-ending context, restarts) and, at quiescent points, the per-node router count (read-only accessor) and goroutines of per-call library functions must be zero; survivors are reported with their frames.",
+ "Soaks of all call kinds ending in every way (incl. oversized writes with a never-ending context, restarts) and, at quiescent points, the per-node router count (read-only accessor) and goroutines of per-call library functions must be zero; directed cases with context.Background() judged once all targeted servers answered; process-wide goroutine count over calls to a node unreachable since creation; survivors are reported with their frames.",
  "Router count via build-tag accessor under the channel's own lock; goroutines attributed by function name in the dump.",
  "runtime monitoring: structural invariant (router map empty, no per-call goroutines) checked at quiescent points of soaks","DESIGN.md 6 C18","soak")
 chk("C19","exploration",
@@ -83,7 +83,7 @@ chk("C19","exploration",
  "runtime monitoring: reference-model comparison of sort results + algebraic law checks","DESIGN.md 6 C19","sorters")
 chk("C11","exploration",
  "Gated correctable executions (8 variants incl. server streams, per-node, custom type) with snapshots of raw/typed Get, Done and Watch(-1..max+1) taken from inside the next quorum-function invocation (logical time) and after completion, "
- "compared with a reference model computed from the observed invocation log (publish on higher level, value identity, final on done/exhaustion/ctx end, stability, watcher release).",
+ "compared with a reference model computed from the observed invocation log (publish on higher level, value identity, final on done/exhaustion/ctx end, stability, watcher release); bursts (all answers at once, slow quorum function); Watch calls racing with publications from two extra goroutines; first Done() asked after completion.",
  "Value on Incomplete/ctx end is not pinned down by the property and not checked; completion waits use the bounded hang rule.",
  "runtime monitoring: reference-model comparison of snapshots taken at logical instants of gated executions","DESIGN.md 6 C11","corr")
 chk("C15","exploration",
